@@ -50,14 +50,29 @@ public:
 	}
 
 	void splice(const_iterator pos, OrderedQueueList & other, const_iterator it) {
+		if(pos == this->end() && &other != this) {
+			// The common case, an item is appended (EventQueue::enqueue does this). Find its place
+			// first: the comparison may throw, and then nothing has been modified yet, so a failed
+			// enqueue leaves the queue as it was. Placing the item after the last item that is not
+			// greater keeps equal items in arrival order, exactly what the stable sort gives for an
+			// appended item.
+			const ItemCompare compare {};
+			const_iterator place = this->begin();
+			while(place != this->end() && ! compare(*it, *place)) {
+				++place;
+			}
+			super::splice(place, other, it);
+			return;
+		}
+
 		super::splice(pos, other, it);
 		doSort();
 	}
 
 private:
-	void doSort() {
-		auto compare = Compare();
-		this->sort([compare](const T & a, const T & b) {
+	struct ItemCompare
+	{
+		bool operator() (const T & a, const T & b) const {
 			// a and b may be empty if they are recycled to free list.
 			if(a.empty()) {
 				if(b.empty()) {
@@ -70,7 +85,13 @@ private:
 			}
 
 			return compare(a.get(), b.get());
-		});
+		}
+
+		Compare compare;
+	};
+
+	void doSort() {
+		this->sort(ItemCompare {});
 	}
 };
 
